@@ -36,7 +36,8 @@ CONFIG = {
                    ' The pools are drawn from one catalogue, so first outcomes'
                    ' are also compared across histories and across worker'
                    ' processes started with the same hash seed; nested calls are'
-                   ' checked for purity too.'),
+                   ' checked for purity too.'
+                   ' Also (round 6): related fairness families on one structure (merged, split, duplicated, reversed constraint lists).'),
     'level_note': ('Trusted base: neutral.deep_snapshot; the history table '
                    'keys cases by their neutral form. Only observed '
                    'histories are covered.'),
